@@ -29,6 +29,8 @@ def run(ctx):
     ctx.rule("R07.d", "depends model, path resolution: Parameters._spec_to_obj interpreted for a.x / a.b.x / a.b.c.x / a.b.c.x:bounds / a.b.param with every link of the path in turn holding None: "
                       "the parameters to watch are exactly one per existing holder along the path (so that attaching an object at ANY level is noticed) plus the leaves iff the whole path is attached", floor=1)
     ctx.rule("R07.u", "dispatch model, snapshot: Parameters._call_watcher serves a watcher that was unregistered after the dispatch snapshot was taken -- when the first dependency watcher of an event re-resolves the parent's dependencies, the old watchers of the other methods are the only carriers of that event", floor=1)
+    ctx.rule("R07.q", "depends model, batch rebind (shared with R06.q): a path root replaced twice inside one batch -- _update_deps -> _call_watcher(rebuilt watcher) -> flush interpreted in sequence with the "
+                      "replaced watcher already queued: exactly one watcher runs on behalf of the method at the flush", floor=1)
     ctx.rule("R07.c", "every assignment of a path root re-resolves: Parameter.__set__ calls obj.param._update_deps(name) for an instance, after storing the value and before the watchers run", floor=1)
     ctx.not_decided += ["histories longer than one replacement per level (each rebinding starts from the recorded watchers, which R07.b shows are exactly the installed ones: induction)",
                         "the parsing of a spec string (_parse_dependency_spec, two regular expressions) and method-name dependencies",
@@ -69,3 +71,4 @@ def run(ctx):
     from checks import dispatch_model
     dispatch_model.snapshot_model(ctx, "R07.u", "C07")
     depends_model.report_filter(ctx, "R07.a")
+    depends_model.report_batch_rebind(ctx, "R07.q")
